@@ -308,6 +308,9 @@ class Check:
             ok_gen, gen_log = regenerate()
             if not ok_gen:
                 self.broken.append("translation/capture of /repo source (tie T/K): " + gen_log.strip()[-400:])
+            # bring EVERY compiled file up to date with the regenerated Gen/*.v first (files outside this check's
+            # targets must not stay compiled against an older Gen file), then decide on this check's own targets
+            make([])
             ok_mk, mk_log = make(make_targets)
             model_ok = ok_mk
             if not ok_mk:
